@@ -131,3 +131,4 @@ end CV.Ans.C04
 #print axioms CV.Ans.C04.encode_decode
 #print axioms CV.Ans.C04.bits_back
 #print axioms CV.Ans.C04.binary_bits_back
+#print axioms CV.Ans.C04.encodeSeq_append
